@@ -391,7 +391,7 @@ theorem rmDelRef_spec {st : St} (h : RInvX ex st) {o : Owner} {n : String} {prev
         alookup st.v2r (o.model, prev.val) = some [prev] ∧
         ∀ r ∈ (rmDelRef st o n).1.refs, ¬ (r.owner.model = o.model ∧ r.val = prev.val)) := by
   obtain ⟨hp, ho, hn⟩ := refLookup_some hl
-  have hsid : SidOK (sp (rmDelRef st o n).1) := sidOK_strans (strans_rmDelRef st o n) h.sid
+  have hsid : SidOK (sp (rmDelRef st o n).1) := sidOK_strans (Q := fun _ _ => True) (strans_rmDelRef st o n) h.sid
   have herase := mem_refErase_of_lookup h hl
   by_cases ht : prev.val.tracked = true
   · -- the entry exists and contains prev
@@ -525,7 +525,7 @@ theorem rmChangeRef_spec {st : St} (h : RInvX ex st) {o : Owner} {n : String} {p
         σ.group = o.model ∧ σ.val = prev.val ∧
         ∀ r ∈ (rmChangeRef st o n v).1.refs, ¬ (r.owner.model = o.model ∧ r.val = prev.val)) := by
   obtain ⟨hp, ho, hn⟩ := refLookup_some hl
-  have hsid : SidOK (sp (rmChangeRef st o n v).1) := sidOK_strans (strans_rmChangeRef st o n v) h.sid
+  have hsid : SidOK (sp (rmChangeRef st o n v).1) := sidOK_strans (Q := fun _ _ => True) (strans_rmChangeRef st o n v) h.sid
   rw [rmChangeRef_eq_changeDrop v hl] at hsid ⊢
   simp only at hsid ⊢
   obtain ⟨a1, a2, a3, a4⟩ := afterAppend_fields st o n v
